@@ -1137,6 +1137,145 @@ def suite_separation(rng, tier, shard, nshards):
         yield one(np.array(1.0), np.array(2.0), "shape:0d")
 
 
+# ---------------------------------------------------------------------------------------------
+# the validators as REGENERATED from the source (translator part `validators`, lean/MirGen/Validators.lean, driver op
+# `gen.validators <"module.function"> <args...>`) vs the real validators: every case of the suites above whose op the
+# translator covers is sent to the generated definition as well (same descriptors, exception class compared exactly);
+# plus arbitrary-shape arguments, and the run-time library's primitives themselves (`pyval.*`, lean/MirModel/PyVal.lean)
+# against NumPy.
+
+ODD_SHAPES = [(), (0,), (1,), (2,), (3,), (4,), (0, 2), (1, 2), (2, 2), (3, 2), (2, 3), (2, 1), (1, 1), (2, 0), (1, 3),
+              (2, 2, 1), (1, 2, 2), (2, 1, 2), (3, 1, 1), (0, 2, 2), (1, 1, 1, 1)]
+
+
+def odd_array(rng, shape=None, lo=-4, hi=8):
+    shape = rng.choice(ODD_SHAPES) if shape is None else shape
+    n = 1
+    for k in shape:
+        n *= k
+    u = rng.random()
+    if u < 0.3:
+        d = sorted(lat(rng, 0, hi) for _ in range(n))                 # increasing, non-negative
+    elif u < 0.5:
+        d = [Fr(rng.randint(0, 3)) for _ in range(n)]                 # many ties / zeros
+    else:
+        d = [lat(rng, lo, hi) if rng.random() < 0.8 else Fr(rng.choice([0, 1, 2, 20, 5000, 30000, 30001])) for _ in range(n)]
+    return A(shape, d)
+
+
+def _bc_compatible(s, t):
+    for a, b in zip(reversed(s), reversed(t)):
+        if not (a == b or a == 1 or b == 1):
+            return False
+    return True
+
+
+def _arr_out(r):
+    r = np.asarray(r)
+    return [[int(k) for k in r.shape], [float(v) if r.dtype != bool else bool(v) for v in np.ravel(r)]]
+
+
+def _gen_covered():
+    from translate import validators as TV
+    return {"%s.%s" % w for w in TV.WANTED}
+
+
+# ops whose arguments are all plain arrays (+ their scalar parameters): fed arbitrary shapes
+_ODD_OPS = {
+    "util.validate_events": lambda rng: [odd_array(rng).enc(), rng.choice([MAX_TIME, Fr(4), Fr(0)])],
+    "util.validate_intervals": lambda rng: [odd_array(rng).enc()],
+    "util.validate_frequencies": lambda rng: [odd_array(rng).enc(), rng.choice([MAX_FREQ, Fr(4)]), rng.choice([MIN_FREQ, Fr(1), Fr(0)]),
+                                              rng.random() < 0.5],
+    "beat.validate": lambda rng: [odd_array(rng).enc(), odd_array(rng).enc()],
+    "onset.validate": lambda rng: [odd_array(rng).enc(), odd_array(rng).enc()],
+    "tempo.validate_tempi": lambda rng: [odd_array(rng).enc(), rng.random() < 0.5],
+    "tempo.validate": lambda rng: [odd_array(rng).enc(), _weight(rng), odd_array(rng).enc()],
+    "segment.validate_boundary": lambda rng: [odd_array(rng).enc(), odd_array(rng).enc(), rng.random() < 0.5],
+    "segment.validate_structure": lambda rng: [odd_array(rng).enc(), rng.randint(0, 3), odd_array(rng).enc(), rng.randint(0, 3)],
+    "alignment.validate": lambda rng: [odd_array(rng).enc(), odd_array(rng).enc()],
+    "melody.validate_voicing": lambda rng: [odd_array(rng, lo=0, hi=1).enc(), odd_array(rng, lo=0, hi=1).enc()],
+    "melody.validate": lambda rng: [odd_array(rng).enc() for _ in range(4)],
+    "transcription.validate_intervals": lambda rng: [odd_array(rng).enc(), odd_array(rng).enc()],
+    "transcription.validate": lambda rng: [odd_array(rng).enc() for _ in range(4)],
+    "transcription_velocity.validate": lambda rng: [odd_array(rng).enc() for _ in range(6)],
+    "multipitch.validate": lambda rng: [odd_array(rng).enc(), [odd_array(rng, lo=0, hi=64).enc() for _ in range(rng.randint(0, 3))],
+                                        odd_array(rng).enc(), [odd_array(rng, lo=0, hi=64).enc() for _ in range(rng.randint(0, 3))]],
+    "hierarchy.validate_hier_intervals": lambda rng: [[odd_array(rng).enc() for _ in range(rng.randint(0, 3))]],
+}
+
+
+def _prim_cases(rng):
+    """the primitives of lean/MirModel/PyVal.lean against NumPy, on arrays of arbitrary shape"""
+    import mir_eval.util as U
+    a = odd_array(rng)
+    x = a.np()
+    s = lat(rng, -2, 6)
+
+    def P(op, args, call):
+        return Case("pyval." + op, args, call, tag="prim " + op, info={"op": "pyval." + op, "stream": "prim"})
+    k = rng.randint(0, 2)
+    yield P("shapeAt", [a.enc(), k], lambda: x.shape[k])
+    yield P("ndim", [a.enc()], lambda: x.ndim)
+    yield P("size", [a.enc()], lambda: x.size)
+    yield P("len", [a.enc()], lambda: len(x))
+    yield P("amax", [a.enc()], lambda: x.max())
+    yield P("amin", [a.enc()], lambda: np.min(x))
+    yield P("asum", [a.enc()], lambda: x.sum())
+    yield P("abs", [a.enc()], lambda: _arr_out(np.abs(x)))
+    yield P("gtS", [a.enc(), s], lambda: _arr_out(x > float(s)))
+    yield P("anyLtS", [a.enc(), s], lambda: (x < float(s)).any())
+    yield P("allGeS", [a.enc(), s], lambda: np.all(x >= float(s)))
+    yield P("allFinite", [a.enc()], lambda: np.all(np.isfinite(x)))
+    yield P("orLtGt", [a.enc(), Fr(0), Fr(1)], lambda: _arr_out(np.logical_or(x < 0, x > 1)))
+    yield P("diff", [a.enc()], lambda: _arr_out(np.diff(x)))
+    yield P("tail1", [a.enc()], lambda: _arr_out(x[1:]))
+    yield P("init1", [a.enc()], lambda: _arr_out(x[:-1]))
+    if len(a.shape) <= 2:
+        yield P("col", [a.enc(), k], lambda: _arr_out(x[:, k]))
+    yield P("generateLabels", [a.enc()], lambda: len(U.generate_labels(x)))
+    # two arrays: one shape, or shapes that cannot be broadcast (ValueError); broadcastable unequal shapes are
+    # outside the library's domain and not generated
+    b = odd_array(rng, a.shape if rng.random() < 0.6 else None)
+    if b.shape == a.shape or not _bc_compatible(a.shape, b.shape):
+        y = b.np()
+        yield P("leA", [a.enc(), b.enc()], lambda: _arr_out(x <= y))
+        yield P("sub", [a.enc(), b.enc()], lambda: _arr_out(x - y))
+    xs = [odd_array(rng) for _ in range(rng.randint(0, 3))]
+    yield P("listGet", [[v.enc() for v in xs], k], lambda: _arr_out([v.np() for v in xs][k]))
+    u, v = lat(rng, 0, 32), lat(rng, 0, 32)
+    if rng.random() < 0.5:
+        v = u + rng.choice([Fr(1, 2 ** 30), Fr(1, 2 ** 17), Fr(1, 2 ** 9), -Fr(1, 2 ** 17)])
+    if close_margin_ok(u, v):
+        yield P("allclose", [u, v], lambda: bool(np.allclose(float(u), float(v))))
+
+
+def suite_gen_validators(rng, tier, shard, nshards):
+    import random as _random
+    covered = _gen_covered()
+    for name in sorted(SUITES):
+        if name in ("gen_validators", "key", "chord"):
+            continue
+        sub = _random.Random(rng.randint(0, 2 ** 62))
+        for c in SUITES[name](sub, tier, shard, nshards):
+            op = c.info["op"]
+            if op in covered:
+                yield Case("gen.validators", [op] + list(c.args), c.call, tag="gen " + c.tag,
+                           info=c.info, nontrivial=c.nontrivial)
+    n = count(tier, 40, 1500)
+    for _ in range(n):
+        for op in sorted(_ODD_OPS):
+            if op in covered:
+                args = _ODD_OPS[op](rng)
+                yield Case("gen.validators", [op] + args, (lambda op=op, args=args: run_real(op, args)),
+                           tag="gen shape:arbitrary", info={"op": op, "real": args, "stream": "shape:arbitrary"})
+        for c in _prim_cases(rng):
+            yield c
+        p = pat_valid(rng)
+        yield Case("gen.validators", ["pattern._n_onset_midi", p],
+                   (lambda p=p: mir_eval.pattern._n_onset_midi(_patterns(p))), tag="gen pattern count",
+                   info={"op": "pattern._n_onset_midi", "real": [p], "stream": "shape:count"})
+
+
 SUITES = {
     "util_events": suite_util_events,
     "beat_onset": suite_beat_onset,
@@ -1154,6 +1293,7 @@ SUITES = {
     "hierarchy": suite_hierarchy,
     "chord": suite_chord,
     "separation": suite_separation,
+    "gen_validators": suite_gen_validators,
 }
 
 
